@@ -135,6 +135,30 @@ use rand_xoshiro::Xoshiro256StarStar;
 /// the seeded stream with rare words spliced in (all ones, zero, the largest and smallest
 /// mantissas of the f32 / f64 conversions): a deterministic machine must not notice which
 /// words it is given, however unlikely they are
+thread_local! {
+    /// words drawn since the last `budget()` and the limit set by it (C01: the work of one call is
+    /// bounded by a small constant times (events + 1) x (machines + 1) machine steps; a call that draws
+    /// far beyond that is looping or recursing without bound - it is stopped by a panic, which the
+    /// driver records like any other panic, long before the stack is exhausted)
+    pub static DRAWS: std::cell::Cell<u64> = std::cell::Cell::new(0);
+    pub static LIMIT: std::cell::Cell<u64> = std::cell::Cell::new(u64::MAX);
+}
+/// allow `per_step * (events + 1) * (machines + 1)` words (at most `cap`) until the next call of `budget`
+pub fn budget(events: usize, machines: usize) {
+    DRAWS.with(|d| d.set(0));
+    LIMIT.with(|l| l.set((2000u64 * (events as u64 + 1) * (machines as u64 + 1)).min(200_000)));
+}
+fn tick() {
+    let n = DRAWS.with(|d| {
+        d.set(d.get() + 1);
+        d.get()
+    });
+    if n > LIMIT.with(|l| l.get()) {
+        LIMIT.with(|l| l.set(u64::MAX));
+        panic!("draw budget of this trigger_events call exhausted after {} words: unbounded work in one call", n - 1);
+    }
+}
+
 #[derive(Clone)]
 pub struct Spiked {
     pub inner: Xoshiro256StarStar,
@@ -146,6 +170,7 @@ impl rand_core::RngCore for Spiked {
         (self.next_u64() >> 32) as u32
     }
     fn next_u64(&mut self) -> u64 {
+        tick();
         let w = rand_core::RngCore::next_u64(&mut self.inner);
         if !self.on {
             return w;
